@@ -33,7 +33,8 @@ LEVEL_TEXT = ("Exploration: thousands of generated single-rooted trees (all shap
               " Trees the library derived from used ones (also with float64 coordinates); size sweep with 32-bit id tables and big branched trees."
               " read / sort call forms spelled positionally, by keyword and with defaults written out."
               " Sorted results re-rooted without sorting / re-linked in place and sorted again; sort_nodes_impl results kept across another sort; the C03 contract set (incl. re-verification of earlier results) is active."
-              " Sorting twins under custom column names.")
+              " Sorting twins under custom column names."
+              " What sort_nodes_impl / sort_tree handed out is overwritten in place, then the same tree is sorted again.")
 LEVEL_NOTE = ("Trusts the tag oracle (dict comparison) and pandas/numpy equality; sibling order "
               "and integer dtype width are free.")
 RULE = ("cases = (tree recipe, form in {tree, table, table-inplace, file}, id scheme, row order, "
